@@ -2,6 +2,7 @@ import OnetVerif.Model.Util
 import OnetVerif.Model.C09Entries
 import OnetVerif.Model.C09Local
 import OnetVerif.Model.C09Recv
+import OnetVerif.Model.C09Pause
 import OnetVerif.Generated
 /-! Model for property C09 — peer failures are contained, reported to senders, and recoverable
 (core-only).
